@@ -5,8 +5,6 @@ import (
 	"go/token"
 	"go/types"
 
-	"golang.org/x/tools/go/cfg"
-
 	"gnoverif/engine"
 )
 
@@ -107,63 +105,92 @@ func c40(c *engine.Ctx) {
 		c.Check("update-under-lock", f.Name+" defer Unlock", f.Pos(), hasDeferUnlock, "Unlock must be deferred so the lock is released on every exit")
 	}
 
-	// (4) Update removes every committed tx that is present.
+	// (4) Update removes every committed tx that is present. The removal and the
+	// presence lookup are searched through in-package helpers (the per-tx body
+	// may be extracted into one).
 	if f := c.MustFunc(M + "Update"); f != nil {
 		g := f.Graph()
 		info := f.Info()
-		rm := f.CallsTo(M + "removeTx")
+		var txLoops []*ast.RangeStmt
+		engine.InspectBody(f, func(n ast.Node) {
+			if rs, ok := n.(*ast.RangeStmt); ok {
+				if o := engine.ObjOf(info, rs.X); o != nil && o == paramObj(f, 1) {
+					txLoops = append(txLoops, rs)
+				}
+			}
+		})
+		var rm []engine.DeepSite
+		for _, d := range f.DeepCallsTo(2, M+"removeTx") {
+			for _, l := range txLoops {
+				if containsExpr(l.Body, d.Outer.Node) {
+					rm = append(rm, d) // removals belonging to the committed-tx loop (others: recheck path)
+				}
+			}
+		}
 		c.Floor("update-removes", len(rm), 1)
-		for _, s := range rm {
+		isLoad := func(fn *engine.Fn, n ast.Node) bool {
+			call, ok := n.(*ast.CallExpr)
+			if !ok {
+				return false
+			}
+			sel, ok := call.Fun.(*ast.SelectorExpr)
+			return ok && sel.Sel.Name == "Load" && engine.MentionsName(sel.X, "txsMap")
+		}
+		loads := f.DeepFind(2, isLoad)
+		for _, d := range rm {
+			s := d.Outer
 			ok, why := true, "removal gated only by presence in txsMap"
-			inRange := false
+			var loop *ast.RangeStmt
 			ast.Inspect(f.Body, func(n ast.Node) bool {
 				if rs, ok := n.(*ast.RangeStmt); ok && rs.Body.Pos() <= s.Pos() && s.Pos() < rs.Body.End() {
 					if o := engine.ObjOf(info, rs.X); o != nil && o == paramObj(f, 1) {
-						inRange = true
+						loop = rs
 					}
 				}
 				return true
 			})
-			if !inRange {
-				ok, why = false, "removeTx is not inside the loop over the committed txs"
+			if loop == nil {
+				ok, why = false, "removeTx is not reached from inside the loop over the committed txs"
 			}
-			for _, gt := range g.Gates(s) {
-				// allowed: the comma-ok of txsMap.Load
-				if isLoadOK(f, gt.Cond) && gt.OnTrue {
-					continue
+			for _, gt := range d.DeepGates() {
+				// allowed: the comma-ok of txsMap.Load (in whichever function the gate lives)
+				allowed := false
+				for _, fn := range append([]*engine.Fn{f}, d.Chain...) {
+					if isLoadOK(fn, gt.Cond) && gt.OnTrue {
+						allowed = true
+					}
 				}
-				ok, why = false, "removal additionally depends on condition `"+engine.ExprString(gt.Cond)+"`"
+				if !allowed {
+					ok, why = false, "removal additionally depends on condition `"+engine.ExprString(gt.Cond)+"`"
+				}
 			}
 			c.Check("update-removes", f.Name+" removeTx", s.Pos(), ok, why)
+			if loop == nil {
+				continue
+			}
+			// every iteration over the committed txs performs the presence lookup: no path
+			// through the loop body (or through the helper that holds the lookup) skips it.
+			var outerLoads []*engine.Site
+			okIter := true
+			for _, l := range loads {
+				if !containsExpr(loop.Body, l.Outer.Node) {
+					continue
+				}
+				outerLoads = append(outerLoads, l.Outer)
+				if l.Inner != l.Outer {
+					h := l.Inner.Fn
+					hg := h.Graph()
+					for _, rb := range hg.ReturnBlocks() {
+						if rs := h.SiteOf(rb.Return()); rs != nil && !hg.MustPass(rs, []*engine.Site{l.Inner}) {
+							okIter = false
+						}
+					}
+				}
+			}
+			okIter = okIter && iterationMustPass(f, loop, outerLoads)
+			c.Check("update-removes", f.Name+" every committed tx is looked up", loop.Pos(), okIter, "some path through the loop over committed txs skips the txsMap.Load/removeTx step (e.g. an early continue): a committed tx could stay in the mempool")
 		}
-		// every iteration over the committed txs performs the presence lookup:
-		// no path through the loop body reaches the next iteration (continue,
-		// fall-through) without passing txsMap.Load.
-		engine.InspectBody(f, func(n ast.Node) {
-			rs, isR := n.(*ast.RangeStmt)
-			if !isR || engine.ObjOf(info, rs.X) != paramObj(f, 1) {
-				return
-			}
-			var head, entry *cfg.Block
-			for _, b := range g.CFG.Blocks {
-				if b.Stmt == ast.Stmt(rs) && b.Kind == cfg.KindRangeLoop {
-					head = b
-				}
-				if b.Stmt == ast.Stmt(rs) && b.Kind == cfg.KindRangeBody {
-					entry = b
-				}
-			}
-			avoid := map[*cfg.Block]bool{}
-			nLoad := 0
-			for _, s := range f.Calls() {
-				if sel, ok := s.Call.Fun.(*ast.SelectorExpr); ok && sel.Sel.Name == "Load" && engine.MentionsName(sel.X, "txsMap") && containsExpr(rs.Body, s.Node) {
-					avoid[s.Block] = true
-					nLoad++
-				}
-			}
-			ok := head != nil && entry != nil && nLoad > 0 && (avoid[entry] || !g.Reach(entry, head, avoid))
-			c.Check("update-removes", f.Name+" every committed tx is looked up", rs.Pos(), ok, "some path through the loop over committed txs skips the txsMap.Load/removeTx step (e.g. an early continue): a committed tx could stay in the mempool")
-		})
+		_ = g
 	}
 
 	// (5) admission gates.
